@@ -221,6 +221,35 @@ func runWireTable(c *Ctx) {
 			c.Check(why == "", "A3", fname, key, p.ipos(fs.store), key+" <- "+clip(expr, 120), why+" (expression: "+clip(expr, 200)+")")
 		}
 	}
+	// what the wire orders stays in wire order: the only collections the realtime parser sorts are the ones it builds
+	// from maps (Realtime.Trips, Realtime.Vehicles) and lists of route ids; stop time updates, informed entities, active
+	// periods and texts are transcribed in the order sent (a stop time update without stop_sequence has no sort key)
+	{
+		var sorted []string
+		nSort := 0
+		for _, fn := range fns {
+			for _, blk := range fn.Blocks {
+				for _, in := range blk.Instrs {
+					call, ok := in.(*ssa.Call)
+					if !ok || !isSortCall(calleeName(call)) {
+						continue
+					}
+					nSort++
+					t := sortTarget(call).Type()
+					elem := sliceElemName(t)
+					switch elem {
+					case "gtfs.Trip", "gtfs.Vehicle", "string":
+					default:
+						if calleeName(call) == "sort.Strings" {
+							continue
+						}
+						sorted = append(sorted, shortType(t)+" at "+p.ipos(call))
+					}
+				}
+			}
+		}
+		c.Check(len(sorted) == 0, "A3", "gtfs", "wire order is kept", "-", fmt.Sprintf("%d sort calls in the realtime parser, all on map-built outputs or id lists", nSort), "the realtime parser sorts a collection whose order is the sender's: "+strings.Join(sorted, "; "))
+	}
 	for _, r := range wireOracle {
 		if !seen[r.field] {
 			c.Violated("A3", "gtfs", r.field, "-", r.field+" is never assigned by the realtime parser: wire field(s) "+strings.Join(r.leaves, ",")+" are dropped")
@@ -479,6 +508,7 @@ func runUnits(c *Ctx) {
 		}
 		c.Check(ok, "UNITS", shortName(f), "HH:MM:SS start time as a duration", p.pos(f.Pos()), "(3600*h + 60*m + s) * time.Second from the three regexp groups", why)
 	}
+	runStartAcceptance(c, "UNITS")
 	// the texts accepted as start time / start date are exactly HH:MM:SS and YYYYMMDD (oracle: gtfs-realtime.proto)
 	for _, pr := range []struct{ spec, want, what string }{
 		{"gtfs:parseStartTime", `^([0-9]{2}):([0-9]{2}):([0-9]{2})$`, "start_time is HH:MM:SS"},
@@ -749,4 +779,121 @@ func constArrayElem(v ssa.Value) (int64, bool) {
 		}
 	}
 	return 0, false
+}
+
+// extraRejections: on the paths of f that answer false in result flagIdx, some branch outcome is something other than
+// a nil test of a parameter, a nil test of a regexp match, or the false answer of a helper of the module for which the
+// same holds. Returns a description of the first such test ("" if none).
+func extraRejections(c *Ctx, f *ssa.Function, flagIdx int, depth int) string {
+	if depth > 2 || len(f.Blocks) == 0 || len(naturalLoops(f)) > 0 {
+		if len(naturalLoops(f)) > 0 {
+			return ""
+		}
+		return ""
+	}
+	p := c.P
+	bad := ""
+	enumPaths(f, func(path []*ssa.BasicBlock) {
+		if bad != "" {
+			return
+		}
+		last := path[len(path)-1]
+		ret, ok := last.Instrs[len(last.Instrs)-1].(*ssa.Return)
+		if !ok || flagIdx >= len(ret.Results) {
+			return
+		}
+		if bv, isC := constBool(ret.Results[flagIdx]); !isC || bv {
+			return
+		}
+		for i := range path {
+			cond, val, ok := edgeTaken(path, i, nil)
+			if !ok {
+				continue
+			}
+			for {
+				u, isNot := cond.(*ssa.UnOp)
+				if !isNot || u.Op != token.NOT {
+					break
+				}
+				cond, val = u.X, !val
+			}
+			switch x := cond.(type) {
+			case *ssa.BinOp:
+				if isNilConst(x.Y) || isNilConst(x.X) {
+					continue // presence of the argument / of the match
+				}
+				bad = "the comparison at " + p.ipos(x)
+			case *ssa.Extract:
+				if call, isCall := x.Tuple.(*ssa.Call); isCall {
+					if h := staticCallee(call); h != nil && p.isModuleFn(h) && len(h.Blocks) > 0 {
+						if !val {
+							if hb := extraRejections(c, h, x.Index, depth+1); hb != "" {
+								bad = hb
+							}
+						}
+						continue
+					}
+				}
+				bad = "the test at " + p.ipos(x)
+			case *ssa.Call:
+				if h := staticCallee(x); h != nil && p.isModuleFn(h) && len(h.Blocks) > 0 && h.Signature.Results().Len() == 1 {
+					if !val {
+						if hb := extraRejections(c, h, 0, depth+1); hb != "" {
+							bad = hb
+						}
+					}
+					continue
+				}
+				bad = "the test at " + p.ipos(x)
+			default:
+				if in, isIn := cond.(ssa.Instruction); isIn {
+					bad = "the test at " + p.ipos(in)
+				}
+			}
+			if bad != "" {
+				return
+			}
+		}
+	})
+	return bad
+}
+
+// runStartAcceptance: see the comment inside; shared by C02 (UNITS) and the properties that rely on the trip
+// identifier being transcribed for every well-formed value (C04, C07: two runs of one trip that start after 24:00:00
+// must stay two trips).
+func runStartAcceptance(c *Ctx, rule string) {
+	p := c.P
+	// a start time / start date is rejected only when it is absent or does not match the pattern: no further test of
+	// the numbers (hours past 23 are valid: a trip of the previous service day) decides that the value is dropped
+	for _, spec := range []string{"gtfs:parseStartTime", "gtfs:parseStartDate"} {
+		f := c.anchor(spec)
+		if f == nil {
+			continue
+		}
+		flagIdx := -1
+		for i := 0; i < f.Signature.Results().Len(); i++ {
+			if bt, ok := f.Signature.Results().At(i).Type().Underlying().(*types.Basic); ok && bt.Kind() == types.Bool {
+				flagIdx = i
+			}
+		}
+		if flagIdx < 0 {
+			continue
+		}
+		bad := extraRejections(c, f, flagIdx, 0)
+		c.Check(bad == "", rule, shortName(f), "a value is dropped only when absent or not matching the pattern", p.pos(f.Pos()), "every path that answers `no value` took the nil test of the argument or of the pattern match, and nothing else", "a well-formed value is dropped by a further test: "+bad+" (a start time of 24:00:00 or later is valid and identifies another trip than the same id without start time)")
+	}
+}
+
+// sliceElemName: the element type of a slice type as typeName prints it, with a leading * for pointer elements ("" if
+// t is not a slice).
+func sliceElemName(t types.Type) string {
+	sl, ok := t.Underlying().(*types.Slice)
+	if !ok {
+		return ""
+	}
+	elem := typeName(sl.Elem())
+	if _, isPtr := sl.Elem().Underlying().(*types.Pointer); isPtr {
+		elem = "*" + elem
+	}
+	return elem
 }
